@@ -222,7 +222,9 @@ def gen_model(rng, max_decls=40, rich=True, tree=False):
                     continue
                 clos |= closure[g["name"]]
                 members.insert(int(rng.integers(len(members) + 1)), {"m": "use", "group": g["name"]})
-        if len(own) >= 2 and rng.random() < 0.3:
+        if len(own) >= 2 and rng.random() < 0.6:
+            # most groups carry a constraint of their own: an element that reaches several groups (directly or through nested use)
+            # then collects several group-carried constraints, whose order in the generated tables must not depend on anything
             members.append(_gen_constraint(rng, own, in_element=False))
         closure[name] = clos
         groups.append({"k": "group", "name": name, "variant": bool(variant), "members": members,
@@ -244,7 +246,7 @@ def gen_model(rng, max_decls=40, rich=True, tree=False):
                 continue
             members.append(_gen_attr(rng, an, enums, sorted(declared_ns)))
             names.add(an)
-        for _ in range(int(rng.integers(0, 3))):
+        for _ in range(int(rng.integers(0, 5))):
             if not groups:
                 break
             g = groups[int(rng.integers(len(groups)))]
